@@ -34,6 +34,12 @@ public:
     };
     uint64_t key(const char*, size_t);
     size_t next_cut(const py::buffer&, bool);
+    // The number of bytes that must be available for the search over [4, max_length)
+    // to stay inside the buffer: key() reads 8 bytes starting 4 bytes before the offset,
+    // so the window of the last candidate ends past max_length unless it's aligned
+    size_t lookahead() const {
+        return max_length > 4 ? ((max_length - 1) & ~static_cast<size_t>(3)) + 4 : max_length;
+    }
 
     size_t min_length, max_length;
     __m128i params, k1;
@@ -53,7 +59,7 @@ size_t gclmulchunker::next_cut(const py::buffer& buffer, bool final = false) {
             return size / 2;
         else
             return max_length;
-    } else if (!final && size < max_length)
+    } else if (!final && size < lookahead())
         return 0;
 
     for (i = 4; i < max_length; i += 4) {
